@@ -1,6 +1,7 @@
 import PqV.Drv.Proto
 import PqV.Drv.File
 import PqV.Impl.Assemble
+import PqV.Gen.SchemaLevels
 /- Drv.Nested — `nested.*` stream: record assembly, specification vs the model of `_assemble_objects`. -/
 namespace PqV.Drv
 open PqV.Spec PqV.Impl.Assemble
@@ -25,6 +26,9 @@ def handleNested (op : String) (a : Args) : String :=
     match readChunk (a.nat "nrows") (a.nat "null" != 0) (a.nat "maxdef") pages with
     | .ok rows => "ok rows=" ++ showList (rows.map showRow)
     | .error f => s!"err fault {showAFault f}"
+  | "levels" =>
+    let path := a.nats "path"
+    s!"ok required={if PqV.Gen.SchemaLevels.isRequired path then 1 else 0} maxdef={PqV.Gen.SchemaLevels.maxDef path} maxrep={PqV.Gen.SchemaLevels.maxRep path}"
   | _ => s!"err unknown-op nested {op}"
 
 end PqV.Drv
